@@ -1,4 +1,94 @@
-/- driver operations of C17 (stub: no model yet) -/
+import EvoModel.Model.Basic
+import EvoModel.Model.Hex
+import EvoModel.Gen.Writers
+/-! driver operations of C17: the guard outcome of a writer / call site as the regenerated tables describe it -/
 namespace Evo.Drv.C17
-def handle (_op : String) (_args : List String) : Option String := none
+open Evo Evo.Overwrite Evo.Gen
+
+def parsePK : String → Option PathKind
+  | "str" => some .str | "path" => some .path | "handle" => some .handle | _ => none
+
+def b01 (s : String) : Option Bool := match s with | "1" => some true | "0" => some false | _ => none
+
+def showOutcome (o : Outcome) : String :=
+  (if o.prompted then "1" else "0") ++ " " ++ (if o.wrote then "1" else "0")
+
+def findWriter (name : String) : Option Writer := writers.find? (·.name = name)
+
+def readBools (n : Nat) (l : List String) : Option (List Bool × List String) := do
+  let (a, b) ← takeN n l
+  let bs ← a.mapM b01
+  some (bs, b)
+
+def showBools (l : List Bool) : String := String.ofList (l.map fun b => if b then '1' else '0')
+
+/-- ops:
+  `writer name pk exists confirm hexanswer`            → `prompted wrote` | `NO-GUARD`
+  `export confirm n e1…en k hexanswers…`               → `wrotebits prompts` (split figures)
+  `cli file writer nw exists hexanswer`                → `prompted wrote;…` one per matching cli site
+  `cliexport file nw n e1…en k hexanswers…`            → `wrotebits prompts;…`
+  `generate exists hexanswer`                          → `prompted wrote` (evo_config generate -o) -/
+def handle (op : String) (args : List String) : Option String :=
+  match op, args with
+  | "writer", [name, pk, ex, cf, ans] => do
+      let w ← findWriter name
+      let pk ← parsePK pk
+      let ex ← b01 ex
+      let cf ← b01 cf
+      let ans ← Hex.unhex ans
+      match w.mainGuard with
+      | none => some "NO-GUARD"
+      | some g => some (showOutcome (g.run pk ex cf ans))
+  | "export", cf :: n :: rest => do
+      let w ← findWriter "export"
+      let cf ← b01 cf
+      let n ← n.toNat?
+      let (es, rest) ← readBools n rest
+      let (k, rest) ← match rest with | k :: r => some (k, r) | [] => none
+      let k ← k.toNat?
+      let (ans, _) ← takeN k rest
+      let ans ← ans.mapM Hex.unhex
+      match w.loopGuard with
+      | none => some "NO-GUARD"
+      | some g => let r := exportBy g cf es ans; some (showBools r.1 ++ " " ++ toString r.2)
+  | "cli", [file, writer, nw, ex, ans] => do
+      let w ← findWriter writer
+      let nw ← b01 nw
+      let ex ← b01 ex
+      let ans ← Hex.unhex ans
+      let sites := callSites.filter fun c => c.cli && c.file = file && c.writer = writer
+      if sites.isEmpty then some "NO-SITE" else
+      match w.mainGuard with
+      | none => some "NO-GUARD"
+      | some g =>
+        some (";".intercalate (sites.map fun c =>
+          match confirmExpr c.confirm w.dflt nw with
+          | none => "UNKNOWN-EXPR"
+          | some cf => showOutcome (g.run .str ex cf ans)))
+  | "cliexport", file :: nw :: n :: rest => do
+      let w ← findWriter "export"
+      let nw ← b01 nw
+      let n ← n.toNat?
+      let (es, rest) ← readBools n rest
+      let (k, rest) ← match rest with | k :: r => some (k, r) | [] => none
+      let k ← k.toNat?
+      let (ans, _) ← takeN k rest
+      let ans ← ans.mapM Hex.unhex
+      let sites := callSites.filter fun c => c.cli && c.file = file && c.writer = "export"
+      if sites.isEmpty then some "NO-SITE" else
+      match w.loopGuard with
+      | none => some "NO-GUARD"
+      | some g =>
+        some (";".intercalate (sites.map fun c =>
+          match confirmExpr c.confirm w.dflt nw with
+          | none => "UNKNOWN-EXPR"
+          | some cf => let r := exportBy g cf es ans; showBools r.1 ++ " " ++ toString r.2))
+  | "generate", [ex, ans] => do
+      let ex ← b01 ex
+      let ans ← Hex.unhex ans
+      match directGuards.find? (fun d => d.file = "evo/main_config.py" && d.guardsWrite) with
+      | none => some "NO-GUARD"
+      | some _ => some (showOutcome (checkAndConfirm ex ans))
+  | _, _ => none
+
 end Evo.Drv.C17
